@@ -18,4 +18,18 @@ var checks = map[string]*checkDef{
 			"porcupine v1.3.0 is a correct linearizability checker; its wall-clock timeout can only yield Unknown, which is counted and never reported",
 		},
 	},
+	"C13": {
+		property: "C13", level: "exploration",
+		plan: []planItem{
+			{workload: "C13", variant: "plain", quick: 20000, thorough: 400000},
+			{workload: "C13", variant: "purego", quick: 20000, thorough: 400000},
+			{workload: "C13", variant: "force32bit", thorough: 100000, thoroughOnly: true},
+			{workload: "C13", variant: "noavx2", thorough: 100000, thoroughOnly: true},
+		},
+		assume: []string{
+			"the reference model (Keccak-f[1600] from FIPS 202, STROBE-128 subset and Merlin v1.0 framing from their specifications, DESIGN Appendix A) is correct; it reproduces SHA3-256, SHAKE128 and both upstream Merlin vectors on every start-up",
+			"for KEY / rekey / finalize / RNG reads upstream publishes no known answers; agreement of two independent derivations (model and library) is the evidence",
+			"separation of sibling histories is checked on sampled single edits, not proved",
+		},
+	},
 }
